@@ -31,6 +31,7 @@ EventOK(e) ==
        ELSE /\ ~e.err
             /\ KV(e.block) = want.block                               \* rewritten in place, definition order
             /\ e.probe = ProbeStr(e.c.mode, want.env, e.c.probe) \o "|" \o Repeats(e.c.mode, want.env, Block(e), 1)   \* what the rest of the pipeline saw
+            /\ e.probetop[1] = e.probe /\ e.probetop[2] = e.probe     \* ... top-level settings included, wherever they are written
             /\ \A j \in 1..Len(e.lookups) :                           \* what was exported to / kept in the caller env
                   /\ e.lookups[j][2] = Has(e.c.mode, want.env, e.lookups[j][1])
                   /\ e.lookups[j][3] = Val(e.c.mode, want.env, e.lookups[j][1])
